@@ -65,4 +65,256 @@ pub(crate) mod verif_rig_dt {
     pub(crate) fn pos_any(_p: &crate::state::AtomicPosition, _now: Instant) -> bool {
         kani::any()
     }
+
+    // ---- contract stand-in for DrawState::draw_to_term (assume-guarantee): the C01/C19 step harnesses establish, on the
+    //      detailed screen model, that draw_to_term erases exactly `bar_count` rows upward from the cursor row, paints the
+    //      text lines and then the bar lines each on its wrapped rows, and leaves bar_count = painted bar rows. Harnesses
+    //      about the layers ABOVE (BarState, MultiState) use that contract on a row stack instead of re-executing the
+    //      terminal protocol (which costs CBMC tens of minutes per call). One-row lines, frames that fit, top alignment;
+    //      the two recorded finding regions of draw_to_term are outside the contract.
+    pub(crate) const STK: usize = 16;
+    pub(crate) static mut STACK: [u8; STK] = [0; STK]; // one tag per screen row, bottom of the screen = STACK[SLEN-1]
+    pub(crate) static mut SLEN: usize = 0;
+    pub(crate) static mut DRAWS: usize = 0; // completed draw_to_term calls (frames flushed)
+    pub(crate) static mut FAIL_DRAW_AT: usize = usize::MAX; // index of the draw_to_term call that reports an I/O error (C18)
+    pub(crate) static mut CAP: [u8; 16] = [0; 16]; // bytes of the first bar line of the last frame
+    pub(crate) static mut CAP_N: usize = 0;
+    pub(crate) static mut CAP_TAB: bool = false;
+    pub(crate) static mut LAST_TEXT: usize = 0; // number of text lines in the last frame
+    pub(crate) static mut LAST_BARS: usize = 0; // number of bar lines in the last frame
+
+    pub(crate) fn stack_push(tag: u8) {
+        unsafe {
+            assert!(SLEN < STK);
+            STACK[SLEN] = tag;
+            SLEN += 1;
+        }
+    }
+
+    pub(crate) fn contract_draw_to_term<T: TermLike + ?Sized>(ds: &mut DrawState, _term: &T, bar_count: &mut VisualLines) -> io::Result<()> {
+        unsafe {
+            let call = DRAWS;
+            DRAWS += 1;
+            if call == FAIL_DRAW_AT {
+                // draw_to_term propagates terminal errors with `?` BEFORE updating bar_count
+                return Err(io::Error::from(io::ErrorKind::BrokenPipe));
+            }
+            // erase exactly bar_count rows upward from the cursor row
+            let n = bar_count.as_usize();
+            assert!(n <= SLEN, "contract: more rows to erase than the screen has (over-counted rows)");
+            assert!(SLEN - n >= LOG_FLOOR, "a printed log row would be erased by this draw");
+            SLEN -= n;
+            let mut text = 0;
+            let mut bars = 0;
+            let mut first_bar = usize::MAX;
+            CAP_N = 0;
+            crate::verif_common::rep12!(i, {
+                if i < ds.lines.len() {
+                    let l = &ds.lines[i];
+                    let b = l.as_ref().as_bytes();
+                    let tag = if b.is_empty() { 1 } else { b[0] };
+                    match l {
+                        LineType::Bar(_) => {
+                            if bars == 0 {
+                                first_bar = i;
+                            }
+                            bars += 1;
+                        }
+                        _ => {
+                            // text lines must precede bar lines
+                            assert!(bars == 0, "contract: text line after a bar line");
+                            text += 1;
+                        }
+                    }
+                    stack_push(tag);
+                }
+            });
+            assert!(ds.lines.len() <= 12);
+            if first_bar != usize::MAX {
+                let b = ds.lines[first_bar].as_ref().as_bytes();
+                macro_rules! cap1 {
+                    ($j:expr) => {
+                        if $j < b.len() {
+                            CAP[$j] = b[$j];
+                            if b[$j] == b'\t' {
+                                CAP_TAB = true;
+                            }
+                            CAP_N = $j + 1;
+                        }
+                    };
+                }
+                cap1!(0);
+                cap1!(1);
+                cap1!(2);
+                cap1!(3);
+                cap1!(4);
+                cap1!(5);
+                cap1!(6);
+                cap1!(7);
+                cap1!(8);
+                cap1!(9);
+                cap1!(10);
+                cap1!(11);
+                cap1!(12);
+                cap1!(13);
+                cap1!(14);
+                cap1!(15);
+            }
+            LAST_TEXT = text;
+            LAST_BARS = bars;
+            *bar_count = VisualLines::from(bars);
+        }
+        Ok(())
+    }
+
+    pub(crate) static mut LOG_FLOOR: usize = 0; // rows [0, LOG_FLOOR) are log rows that must never be erased
+
+    /// `CAP[..n] == want[..n]` and CAP_N == n, loop-free
+    pub(crate) fn cap_is(want: &[u8; 16], n: usize) -> bool {
+        unsafe {
+            if CAP_N != n {
+                return false;
+            }
+            let mut ok = true;
+            macro_rules! chk {
+                ($i:expr) => {
+                    if $i < n {
+                        ok &= CAP[$i] == want[$i];
+                    }
+                };
+            }
+            chk!(0);
+            chk!(1);
+            chk!(2);
+            chk!(3);
+            chk!(4);
+            chk!(5);
+            chk!(6);
+            chk!(7);
+            chk!(8);
+            chk!(9);
+            chk!(10);
+            chk!(11);
+            chk!(12);
+            chk!(13);
+            chk!(14);
+            chk!(15);
+            ok
+        }
+    }
+
+    /// A terminal that accepts everything; the terminal protocol itself is covered by the draw_to_term step harnesses.
+    #[derive(Debug)]
+    pub(crate) struct NullTerm {
+        pub w: u16,
+        pub h: u16,
+    }
+    pub(crate) static mut TERM_CALLS: usize = 0;
+    impl TermLike for NullTerm {
+        fn width(&self) -> u16 {
+            self.w
+        }
+        fn height(&self) -> u16 {
+            self.h
+        }
+        fn move_cursor_up(&self, _n: usize) -> io::Result<()> {
+            unsafe { TERM_CALLS += 1 };
+            Ok(())
+        }
+        fn move_cursor_down(&self, _n: usize) -> io::Result<()> {
+            unsafe { TERM_CALLS += 1 };
+            Ok(())
+        }
+        fn move_cursor_right(&self, _n: usize) -> io::Result<()> {
+            unsafe { TERM_CALLS += 1 };
+            Ok(())
+        }
+        fn move_cursor_left(&self, _n: usize) -> io::Result<()> {
+            unsafe { TERM_CALLS += 1 };
+            Ok(())
+        }
+        fn write_line(&self, _s: &str) -> io::Result<()> {
+            unsafe { TERM_CALLS += 1 };
+            Ok(())
+        }
+        fn write_str(&self, _s: &str) -> io::Result<()> {
+            unsafe { TERM_CALLS += 1 };
+            Ok(())
+        }
+        fn clear_line(&self) -> io::Result<()> {
+            unsafe { TERM_CALLS += 1 };
+            Ok(())
+        }
+        fn flush(&self) -> io::Result<()> {
+            unsafe { TERM_CALLS += 1 };
+            Ok(())
+        }
+    }
+
+    /// TermLike target over a NullTerm with a limiter (whose verdict the harness controls through the rl* stubs)
+    pub(crate) fn null_target(w: u16, h: u16, last: usize) -> ProgressDrawTarget {
+        ProgressDrawTarget {
+            kind: TargetKind::TermLike {
+                inner: Box::new(NullTerm { w, h }),
+                last_line_count: VisualLines::from(last),
+                rate_limiter: Some(RateLimiter::new(20)),
+                // pre-sized: growing a Vec means an allocation of symbolic size for CBMC
+                draw_state: DrawState { lines: Vec::with_capacity(8), move_cursor: false, alignment: MultiProgressAlignment::Top },
+            },
+        }
+    }
+
+    pub(crate) fn target_last_rows(t: &ProgressDrawTarget) -> usize {
+        match &t.kind {
+            TargetKind::TermLike { last_line_count, .. } => last_line_count.as_usize(),
+            TargetKind::Term { last_line_count, .. } => last_line_count.as_usize(),
+            _ => 0,
+        }
+    }
+
+    // ---- one-row lines: the row count of a slice of lines is its length (contract of visual_line_count for lines that
+    //      are not wider than the terminal; the real function is C01/C19's subject) ----
+    pub(crate) fn rows_are_lines(lines: &[LineType], _width: usize) -> VisualLines {
+        VisualLines::from(lines.len())
+    }
+    pub(crate) fn ds_rows_are_lines<R: std::slice::SliceIndex<[LineType], Output = [LineType]>>(ds: &DrawState, range: R, _width: usize) -> VisualLines {
+        VisualLines::from(ds.lines[range].len())
+    }
+
+    // ---- LineType::clone with constant-size copies: the harness lines are one-letter strings, so the clone is rebuilt
+    //      from a static string of the same letter (CBMC encodes a memcpy of symbolic length as a whole-object array copy) ----
+    pub(crate) fn clone_one_letter_line(l: &LineType) -> LineType {
+        fn st(s: &str) -> String {
+            let b = s.as_bytes();
+            assert!(b.len() <= 1, "harness lines are one letter or empty");
+            String::from(if b.is_empty() {
+                ""
+            } else {
+                match b[0] {
+                    b'A' => "A",
+                    b'B' => "B",
+                    b'C' => "C",
+                    b'D' => "D",
+                    b'x' => "x",
+                    b'y' => "y",
+                    _ => "?",
+                }
+            })
+        }
+        match l {
+            LineType::Text(s) => LineType::Text(st(s)),
+            LineType::Bar(s) => LineType::Bar(st(s)),
+            LineType::Empty => LineType::Empty,
+        }
+    }
+
+    // ---- harnesses that call MultiState methods directly never go through an RwLock; the draw target of a MultiProgress
+    //      is never itself a remote target. Cutting the lock functions (panicking stubs) stops CBMC from following the
+    //      Multi arm of drawable()/width()/is_hidden() back into MultiState::draw recursively. ----
+    pub(crate) fn no_rwlock_write<T>(_l: &RwLock<T>) -> std::sync::LockResult<RwLockWriteGuard<'_, T>> {
+        panic!("verif: RwLock::write reached in a harness that drives MultiState directly")
+    }
+    pub(crate) fn no_rwlock_read<T>(_l: &RwLock<T>) -> std::sync::LockResult<std::sync::RwLockReadGuard<'_, T>> {
+        panic!("verif: RwLock::read reached in a harness that drives MultiState directly")
+    }
 }
